@@ -178,6 +178,7 @@ def registry_conservation(prog, run, r):
 
 
 def check(prog, run):
+    check_duplicate_sets_grow(prog, run, "K2")
     check_every_extension_checked(prog, run, "K1")
     check_single_root_declaration(prog, run, "O2")
     _PROG[0] = prog
@@ -349,65 +350,7 @@ def check(prog, run):
     rt = run.rule("T1", T1_TEXT, 2)
     registry_conservation(prog, run, rt)
 
-    # ---- N1 a declared `null` default is a default
-    rn = run.rule("N1", "wherever the SDL builder stores a default value (kwargs['default_value'] = ... or default_value=...), the "
-                        "decision that a default is present is taken on the AST slot (`<node>.default_value is not None`) or the "
-                        "stored value is the sentinel-carrying `_default_value` of an existing element; never on the coerced "
-                        "Python value, for which None means the declared default `null`", 4)
-    for f in prog.all_funcs():
-        if not f.module.name.startswith("py_gql.sdl"):
-            continue
-        astparams = {a.arg for a in f.node.args.args if a.annotation is not None and "_ast." in ast.unparse(a.annotation)}
-        for n in own_nodes(f.node):
-            stores = []
-            if isinstance(n, ast.Assign) and isinstance(n.targets[0], ast.Subscript) and isinstance(n.targets[0].slice, ast.Constant) \
-                    and n.targets[0].slice.value == "default_value":
-                stores.append((n, n.value))
-            if isinstance(n, ast.Call):
-                for k in n.keywords:
-                    if k.arg == "default_value":
-                        stores.append((n, k.value))
-            for site, val in stores:
-                run.looked_at(f)
-                guards = []
-                cur = site
-                while getattr(cur, "_parent", None) is not None and cur is not f.node:
-                    par = cur._parent
-                    if isinstance(par, (ast.If, ast.IfExp)) and cur is not par.test:
-                        guards.append(par.test)
-                    cur = par
-                if isinstance(val, ast.IfExp):
-                    guards.append(val.test)
-                rn.instance("%s: default_value <- %s under %s" % (f.qualname, norm_stmt(val)[:60], [norm_stmt(g) for g in guards]))
-                carried = isinstance(val, ast.Attribute) and val.attr == "_default_value"
-                if carried:
-                    continue
-                bad = []
-                # single-assignment locals bound to a plain attribute chain are aliases of that chain
-                alias = {}
-                for x in own_nodes(f.node):
-                    if isinstance(x, ast.Assign) and len(x.targets) == 1 and isinstance(x.targets[0], ast.Name) and isinstance(x.value, ast.Attribute):
-                        alias.setdefault(x.targets[0].id, []).append(x.value)
-                for g in guards:
-                    for name in boolx.atoms(g):
-                        e = ast.parse(name, mode="eval").body
-                        subj = e.left if isinstance(e, ast.Compare) else e
-                        if isinstance(subj, ast.Name) and len(alias.get(subj.id, [])) == 1:
-                            subj = alias[subj.id][0]
-                        root = subj
-                        while isinstance(root, ast.Attribute):
-                            root = root.value
-                        is_slot = isinstance(subj, ast.Attribute) and isinstance(root, ast.Name) and root.id in astparams
-                        if not is_slot and "default" in name:
-                            bad.append(name)
-                if bad:
-                    run.report(rn, "%s:%s:presence-on-coerced-value(%s)" % (f.module.name, f.qualname, bad[0]), f.where(site),
-                               "whether a default exists is decided by `%s`, a Python-level value: a default declared as `null` "
-                               "coerces to None and is dropped (has_default_value becomes false, enclosing defaults lose the key, "
-                               "the printed SDL loses `= null`)" % bad[0])
-                elif not guards and not carried:
-                    run.report(rn, "%s:%s:unguarded-default" % (f.module.name, f.qualname), f.where(site),
-                               "default_value is stored unconditionally from %s: elements without a declared default get one" % norm_stmt(val)[:60])
+    check_null_default(prog, run, "N1")
 
     # ---- Y1 typed attribute reads in the SDL builder
     from .. import typedrule
@@ -752,3 +695,109 @@ def check_every_extension_checked(prog, run, rule_id):
             run.report(r, "py_gql.sdl.ast_type_builder:ASTTypeBuilder._collect_extensions:kind-tested-on-one-element", f.where(t),
                        "the expected extension kind is tested on `%s`, not on every element of the list that is returned: a later "
                        "extension of another kind is handed to the caller" % ast.unparse(subj))
+
+
+def check_duplicate_sets_grow(prog, run, rule_id):
+    """What an extension adds is itself protected against being added twice."""
+    r = run.rule(rule_id, "sdl/ast_type_builder.py, every `_extend_*` method: a membership test that guards `raise ExtensionError` for a "
+                          "duplicate member (enum value, field, interface, union member, input field) is made against a local collection "
+                          "that the same loop also adds the accepted member to - a test against the unextended type's own index misses a "
+                          "member that two extension blocks (or one block twice) add, and the duplicate surfaces later as another "
+                          "exception or as a silently doubled member", 4)
+    b = prog.get_class("py_gql.sdl.ast_type_builder", "ASTTypeBuilder")
+    n_sites = 0
+    for name, m in sorted(b.methods.items()):
+        if not name.startswith("_extend") or isinstance(m.node, ast.Lambda):
+            continue
+        for loop in own_nodes(m.node):
+            if not isinstance(loop, ast.For):
+                continue
+            for iff in ast.walk(loop):
+                if not isinstance(iff, ast.If):
+                    continue
+                raises = any(isinstance(x, ast.Raise) and x.exc is not None and "ExtensionError" in ast.unparse(x.exc) for st in iff.body + iff.orelse for x in ast.walk(st))
+                if not raises:
+                    continue
+                for cmp_ in ast.walk(iff.test):
+                    if isinstance(cmp_, ast.Compare) and len(cmp_.ops) == 1 and isinstance(cmp_.ops[0], (ast.In, ast.NotIn)):
+                        S = cmp_.comparators[0]
+                        run.looked_at(m)
+                        n_sites += 1
+                        stxt = " ".join(ast.unparse(S).split())
+                        grows = isinstance(S, ast.Name) and any(
+                            (isinstance(x, ast.Call) and isinstance(x.func, ast.Attribute) and x.func.attr in ("add", "append", "update", "extend")
+                             and isinstance(x.func.value, ast.Name) and x.func.value.id == S.id)
+                            or (isinstance(x, ast.Subscript) and isinstance(x.ctx, ast.Store) and isinstance(x.value, ast.Name) and x.value.id == S.id)
+                            for x in ast.walk(m.node))
+                        r.instance("%s: duplicate test against `%s` (grows with the accepted members: %s)" % (name, stxt, grows))
+                        if not grows:
+                            run.report(r, "py_gql.sdl.ast_type_builder:ASTTypeBuilder.%s:duplicate-test-against-fixed-collection(%s)" % (name, stxt), m.where(cmp_),
+                                       "%s tests `%s` for a duplicate but never adds the accepted member to `%s`: the same new member added "
+                                       "twice by extensions is not refused with ExtensionError" % (name, " ".join(ast.unparse(cmp_).split()), stxt))
+    if n_sites < 4:
+        raise AnalysisError("C11.%s: fewer than four duplicate tests found in the _extend_* methods (%d)" % (rule_id, n_sites))
+
+
+
+def check_null_default(prog, run, rule_id="N1", prefix="py_gql.sdl", floor=4):
+    # ---- N1 a declared `null` default is a default
+    rn = run.rule(rule_id, "wherever the SDL builder stores a default value (kwargs['default_value'] = ... or default_value=...), the "
+                        "decision that a default is present is taken on the AST slot (`<node>.default_value is not None`) or the "
+                        "stored value is the sentinel-carrying `_default_value` of an existing element; never on the coerced "
+                        "Python value, for which None means the declared default `null` (modules %s.*; a rebuilt schema element may "
+                        "also ask the element's own `has_default_value`)" % prefix, floor)
+    for f in prog.all_funcs():
+        if not f.module.name.startswith(prefix):
+            continue
+        astparams = {a.arg for a in f.node.args.args if a.annotation is not None and "_ast." in ast.unparse(a.annotation)}
+        for n in own_nodes(f.node):
+            stores = []
+            if isinstance(n, ast.Assign) and isinstance(n.targets[0], ast.Subscript) and isinstance(n.targets[0].slice, ast.Constant) \
+                    and n.targets[0].slice.value == "default_value":
+                stores.append((n, n.value))
+            if isinstance(n, ast.Call):
+                for k in n.keywords:
+                    if k.arg == "default_value":
+                        stores.append((n, k.value))
+            for site, val in stores:
+                run.looked_at(f)
+                guards = []
+                cur = site
+                while getattr(cur, "_parent", None) is not None and cur is not f.node:
+                    par = cur._parent
+                    if isinstance(par, (ast.If, ast.IfExp)) and cur is not par.test:
+                        guards.append(par.test)
+                    cur = par
+                if isinstance(val, ast.IfExp):
+                    guards.append(val.test)
+                rn.instance("%s: default_value <- %s under %s" % (f.qualname, norm_stmt(val)[:60], [norm_stmt(g) for g in guards]))
+                carried = isinstance(val, ast.Attribute) and val.attr == "_default_value"
+                if carried:
+                    continue
+                bad = []
+                # single-assignment locals bound to a plain attribute chain are aliases of that chain
+                alias = {}
+                for x in own_nodes(f.node):
+                    if isinstance(x, ast.Assign) and len(x.targets) == 1 and isinstance(x.targets[0], ast.Name) and isinstance(x.value, ast.Attribute):
+                        alias.setdefault(x.targets[0].id, []).append(x.value)
+                for g in guards:
+                    for name in boolx.atoms(g):
+                        e = ast.parse(name, mode="eval").body
+                        subj = e.left if isinstance(e, ast.Compare) else e
+                        if isinstance(subj, ast.Name) and len(alias.get(subj.id, [])) == 1:
+                            subj = alias[subj.id][0]
+                        root = subj
+                        while isinstance(root, ast.Attribute):
+                            root = root.value
+                        is_slot = isinstance(subj, ast.Attribute) and isinstance(root, ast.Name) and root.id in astparams
+                        is_flag = isinstance(subj, ast.Attribute) and subj.attr == "has_default_value"
+                        if not is_slot and not is_flag and "default" in name:
+                            bad.append(name)
+                if bad:
+                    run.report(rn, "%s:%s:presence-on-coerced-value(%s)" % (f.module.name, f.qualname, bad[0]), f.where(site),
+                               "whether a default exists is decided by `%s`, a Python-level value: a default declared as `null` "
+                               "coerces to None and is dropped (has_default_value becomes false, enclosing defaults lose the key, "
+                               "the printed SDL loses `= null`)" % bad[0])
+                elif not guards and not carried:
+                    run.report(rn, "%s:%s:unguarded-default" % (f.module.name, f.qualname), f.where(site),
+                               "default_value is stored unconditionally from %s: elements without a declared default get one" % norm_stmt(val)[:60])
